@@ -557,6 +557,23 @@ func directInduction(v ssa.Value, l *natLoop) bool {
 	if v == nil {
 		return false
 	}
+	// a loop variable captured by a closure lives in a per-iteration cell that is assigned once
+	// (t = new int (comp); *t = <header phi>): look through the cell
+	if u, ok := v.(*ssa.UnOp); ok && u.Op == token.MUL {
+		if cell, ok := u.X.(*ssa.Alloc); ok && cell.Referrers() != nil {
+			var only ssa.Value
+			n := 0
+			for _, r := range *cell.Referrers() {
+				if st, ok := r.(*ssa.Store); ok && st.Addr == ssa.Value(cell) {
+					only = st.Val
+					n++
+				}
+			}
+			if n == 1 && l.Blocks[cell.Block()] {
+				return directInduction(only, l)
+			}
+		}
+	}
 	switch x := v.(type) {
 	case *ssa.Phi:
 		return x.Block() == l.Header
